@@ -786,11 +786,14 @@ func (h *H) allIDs() []recID {
 
 // reconcile runs one reconcile invocation, stopping it after `budget` store/device write calls (-1: no limit)
 func (h *H) reconcile(id recID, budget int) {
-	// crash histories of the scripted refusal: the invocations of the proposals of the refusing target are cut after their
-	// 2nd, 1st, 3rd, 2nd ... call for a while, so that every cut point of the refusal branch is met
-	if n, ok := h.focusCrash[id.a]; ok && id.kind == "prop" && budget < 0 && h.nesting == 0 && n < 15 {
-		budget = []int{2, 1, 3}[n%3]
-		h.focusCrash[id.a] = n + 1
+	// crash histories of the scripted refusal: the invocations of the proposals of the refusing target that are in their apply phase
+	// are cut after their 2nd, 1st, 3rd, 2nd ... call for a while, so that every cut point of the refusal branch is met
+	if n, ok := h.focusCrash[id.a]; ok && id.kind == "prop" && budget < 0 && h.nesting == 0 && n < 6 {
+		if p, err := h.e.Props.Get(context.Background(), proposal.NewID(configapi.TargetID(id.a), configapi.Index(id.idx))); err == nil &&
+			p.Status.Phases.Apply != nil && p.Status.Phases.Apply.State == configapi.ProposalApplyPhase_APPLYING {
+			budget = []int{2, 1, 3}[n%3]
+			h.focusCrash[id.a] = n + 1
+		}
 	}
 	nested := h.nesting > 0
 	var outer crashSnap
